@@ -522,6 +522,57 @@ def part_c_listing(k, plan, exe, root):
     return k, res, classes, n
 
 
+def dotdot_symlink_probe(chk, plan, exe, root):
+    """`..` opened through a descriptor that was itself opened through a symbolic link to a directory: the parent is the PHYSICAL
+    parent of the link's target (what openat(fd, "..") gives), not the directory that contains the link."""
+    d = os.path.join(root, 'dotdot')
+    os.makedirs(os.path.join(d, 'a', 'deep'))
+    os.makedirs(os.path.join(d, 'b'))
+    open(os.path.join(d, 'a', 'inA'), 'w').write('in a\n')
+    open(os.path.join(d, 'b', 'inB'), 'w').write('in b\n')
+    os.symlink('../a/deep', os.path.join(d, 'b', 'lnk'))
+    g = wasih.Guest(plan, ARENA)
+    g.instantiate(preopens=[d])
+    g.poke(0x100, b'b/lnk')
+    g.poke(0x110, b'..')
+    g.poke(0x120, b'inA')
+    g.poke(0x130, b'made')
+    g.poke(0x140, b'inB')
+    dr = (1 << 1) | (1 << 14) | (1 << 9) | (1 << 18) | (1 << 13)
+    i1 = g.call('path_open', [3, 1, 0x100, 5, 2, dr, dr, 0, 0x200])         # -> 4 (a/deep through the link)
+    i2 = g.call('path_open', [4, 0, 0x110, 2, 2, dr, dr, 0, 0x204])         # -> 5 (its parent: a)
+    i3 = g.call('path_filestat_get', [5, 0, 0x120, 3, 0x300])                 # a/inA exists
+    i4 = g.call('path_filestat_get', [5, 0, 0x140, 3, 0x300])                 # a/inB does not
+    i5 = g.call('path_create_directory', [5, 0x130, 4])                       # creates a/made
+    fk = plan.fk('p1_fd_readdir')
+    i6 = g.emit('R 0 %d 5 %d 2048 2048 %d 0 7 50' % (fk, 0x1000, 0x800), 'R')
+    script = g.script()
+    rr, out = wasih.run_script(exe, d, script)
+    files = {'script.txt': script, 'stderr.txt': rr.err.decode('latin-1')[-3000:], 'log.txt': '\n'.join(out)}
+    chk.ev(6)
+    chk.distinct(('dotdot-through-symlinked-directory',))
+    if rr.rc != 0 or len(out) <= i6:
+        chk.violation('C14:dotdot-symlink:crash', 'driver exit %s' % rr.rc, files)
+        return
+    got = [wasih.call_result(out[i]) for i in (i1, i2, i3, i4, i5)]
+    names = sorted(bytes.fromhex(t.split(':')[0]) for t in out[i6].split(' ')[2:] if t.count(':') == 4)
+    want_names = sorted([x.encode() for x in os.listdir(os.path.join(d, 'a'))] + [b'.', b'..'])
+    problems = []
+    if got[:2] != [0, 0]:
+        problems.append('opening the link / its parent failed with %s' % got[:2])
+    else:
+        if got[2] != 0:
+            problems.append('stat of "inA" through the parent descriptor returned errno %s (the file exists in the physical parent)' % got[2])
+        if got[3] != wasih.WASI_NUM['noent']:
+            problems.append('stat of "inB" through the parent descriptor returned %s, expected ENOENT (it lives next to the link, not in the parent of the target)' % got[3])
+        if got[4] != 0 or not os.path.isdir(os.path.join(d, 'a', 'made')) or os.path.exists(os.path.join(d, 'b', 'made')) or os.path.exists(os.path.join(d, 'made')):
+            problems.append('path_create_directory("made") returned %s; a/made exists: %s, b/made exists: %s' % (got[4], os.path.isdir(os.path.join(d, 'a', 'made')), os.path.exists(os.path.join(d, 'b', 'made'))))
+        if names != want_names:
+            problems.append('fd_readdir lists %s, the physical parent holds %s' % (names[:6], want_names[:6]))
+    if problems:
+        chk.violation('C14:dotdot-through-symlinked-directory', '".." opened through a descriptor of a symlinked directory: ' + '; '.join(problems), files)
+
+
 def main(chk):
     quick = chk.tier == 'quick'
     w2c2 = env.build_translator('plain')
@@ -530,6 +581,7 @@ def main(chk):
     mod = wasih.trampoline()
     exe, plan = wasih.build_driver(w2c2, os.path.join(root, 'build'), mod,
                                    ['-O1', '-g', '-fno-omit-frame-pointer', '-fsanitize=address,undefined', '-fno-sanitize-recover=all'])
+    dotdot_symlink_probe(chk, plan, exe, root)
     nb = 200 if quick else 3000
     for k, res, classes, script in env.pmap(lambda k: part_b_history(k, plan, exe, root, 40 if quick else 120), range(nb)):
         chk.ev(len(classes))
